@@ -53,6 +53,7 @@ def make_pair(kind, chooser_w, chooser_r, cut):
         return SocketStream(ws), SocketStream(rs), wire, ws, rs
     # pipes: os.read/os.write on fake descriptors
     rstream.os = _fake_os
+    rstream.poll = F.FakePoll          # nothing may wait on a real descriptor that happens to carry a fake one's number
     menu = ("full", "one", "half", "allbutone")
     ws = F.FragSocket(dead, wire, chooser_w, cw, read_menu=menu)
     rs = F.FragSocket(wire, dead, chooser_r, cr, read_menu=menu)
@@ -90,6 +91,7 @@ def transfer(kind, packets, comp_w, comp_r, chooser, cut=None):
             break
     obs["r_closed"] = rst.closed
     obs["wire_len"] = len(wire.data)
+    obs["w_eagain"] = any(c[0] == "send" and c[2] == "EAGAIN" for c in ws.calls)
     return obs
 
 
@@ -97,6 +99,9 @@ def judge(packets, obs, cut, wire_total=None):
     """violations for one execution"""
     v = []
     got = obs["recv"]
+    if cut is None and obs.get("w_eagain"):
+        # the writer's descriptor answered "would block" once: a failure of that write, judged like any other
+        cut = ("write", None, "EAGAIN")
     if cut is None:
         if obs["send_exc"]:
             v.append(("send-failed-without-fault:%s" % obs["send_exc"], ""))
@@ -114,7 +119,11 @@ def judge(packets, obs, cut, wire_total=None):
         v.append(("corrupted-packet-delivered-after-%s-fault" % side, "cut %r: sent sizes %r got sizes %r" % (cut, [len(p) for p in packets], [len(g) for g in got])))
     if side == "write":
         if obs["sent"] == len(packets) and obs["send_exc"] is None:
-            pass        # the cut lay beyond the data
+            # the writer reported every packet sent (the cut lay beyond the data, or the failure was absorbed): then every
+            # packet must have arrived
+            if got != list(packets):
+                v.append(("writer-reported-success-but-receiver-lacks-data", "cut %r: sent sizes %r got sizes %r" % (
+                    cut, [len(p) for p in packets], [len(g) for g in got])))
         else:
             if obs["send_exc"] != "EOFError":
                 v.append(("writer-failure-not-EOFError:%s" % obs["send_exc"], "cut %r" % (cut,)))
